@@ -12,6 +12,7 @@ import (
 	"com.tuntun.rangers/node/src/middleware/types"
 	"com.tuntun.rangers/node/src/zzverif/node"
 	"com.tuntun.rangers/node/src/zzverif/runner"
+	"com.tuntun.rangers/node/src/zzverif/simmap"
 	"com.tuntun.rangers/node/src/zzverif/simdisk"
 	"com.tuntun.rangers/node/src/zzverif/simrt"
 )
@@ -191,6 +192,7 @@ func (c19) Exec(raw json.RawMessage, st *simrt.Stats, log *simrt.Log) *simrt.Vio
 	if err := json.Unmarshal(raw, &p); err != nil {
 		panic(runner.InfraError{Msg: "bad plan: " + err.Error()})
 	}
+	simmap.Seed = simrt.Mix(p.Seed, 0x6d6170) | 1 // seeded map iteration order (instrumented build)
 	disk := simdisk.NewDisk()
 	n := node.Boot(disk, node.ForksLatest, false)
 	m := &c19Model{removed: map[string]bool{}}
